@@ -143,6 +143,7 @@ type Result struct {
 	Logs         []string                    `json:"logs,omitempty"`
 	hashSet      map[uint64]struct{}
 	sigSeen      map[string]int
+	fallback     interface{} // literal case kept in case no monitor-chosen sample exists
 }
 
 func newResult() *Result {
@@ -181,6 +182,13 @@ func (c *Ctx) Violation(sig, what string, w Witness) {
 // NonTrivial counts the case as non-trivial; distinctness is by hash of the key parts.
 func (c *Ctx) NonTrivial(key ...[]byte) {
 	c.res.hashSet[Hash64(key...)] = struct{}{}
+	if c.res.fallback == nil && len(c.res.Samples) == 0 && c.wk != nil && len(c.wk.last) > 0 {
+		src := c.wk.last
+		if len(src) > 400 {
+			src = src[:400]
+		}
+		c.res.fallback = map[string]interface{}{"case_index": c.Idx, "input_handed_to_the_library": strconv.Quote(string(src)), "note": c.wk.lastNote}
+	}
 }
 
 func (c *Ctx) Cover(table, key string) {
@@ -229,6 +237,8 @@ func (c *Ctx) Inflight(src []byte, note string) {
 // worker
 
 type worker struct {
+	last     []byte
+	lastNote string
 	f        *os.File
 	curIdx   int64
 	startCPU int64 // ns
@@ -243,6 +253,9 @@ type inflightRec struct {
 }
 
 func (w *worker) inflight(idx int, src []byte, note string) {
+	if src != nil {
+		w.last, w.lastNote = src, note
+	}
 	b, _ := json.Marshal(inflightRec{idx, note, src})
 	w.mu.Lock()
 	w.f.WriteAt(b, 0)
@@ -305,6 +318,9 @@ func RunWorker(id string, p Params, shard, of, from, only int, out string) int {
 	wk := &worker{f: f, limitNS: int64(limit) * 1e9}
 	go wk.watchdog()
 	flush := func() {
+		if len(res.Samples) == 0 && res.fallback != nil {
+			res.Samples = append(res.Samples, res.fallback)
+		}
 		for h := range res.hashSet {
 			res.Hashes = append(res.Hashes, h)
 		}
